@@ -12,6 +12,7 @@ pub mod c06;
 pub mod c07x;
 pub mod c10;
 pub mod c10x;
+pub mod c10y;
 pub mod c11;
 pub mod c12;
 pub mod c13;
